@@ -19,7 +19,7 @@ func init() {
 			aliasRuleFiltered(ruleC17Dep, "C17.dep", "C08.selection", 1, func(o Oblig) bool { return strings.Contains(o.Key, "selection by NewestInSet") }),
 			aliasRuleFiltered(ruleC06Ctor, "C06.ctor", "C08.inside", 2, func(o Oblig) bool {
 				return strings.Contains(o.Key, "ResolveRelative") && strings.Contains(o.Key, "subPath")
-			}), ruleDiagsReachResult("C08.diagresult"), ruleRootSymmetric("C08.symmetric"), ruleForwardRefusesUnknownOnly("C08.forward"), aliasRule(ruleC06SubRaw, "C06.subraw", "C08.subraw", 1), ruleValueReceiverWrites("C08.valuerecv", "/sourcebundle")},
+			}), ruleDiagsReachResult("C08.diagresult"), ruleDependenciesBaseIsTheArtifact("C08.baseaddr"), ruleRootSymmetric("C08.symmetric"), ruleForwardRefusesUnknownOnly("C08.forward"), aliasRule(ruleC06SubRaw, "C06.subraw", "C08.subraw", 1), ruleValueReceiverWrites("C08.valuerecv", "/sourcebundle")},
 		NotDecided: []string{
 			"transitive closure over arbitrary dependency graphs and the content of fetched files (run-time facts)",
 			"that looked-up paths exist on disk",
